@@ -2,6 +2,8 @@ use crate::common::{Tier, Violation};
 use serde_json::Value;
 
 pub mod c06;
+pub mod c18;
+pub mod c16;
 pub mod c10;
 pub mod c19;
 pub mod c05;
@@ -13,6 +15,8 @@ pub mod c17;
 pub fn run(id: &str, tier: Tier) -> i32 {
     match id {
         "C06" => c06::run(tier),
+        "C18" => c18::run(tier),
+        "C16" => c16::run(tier),
         "C10" => c10::run(tier),
         "C19" => c19::run(tier),
         "C05" => c05::run(tier),
@@ -32,6 +36,8 @@ pub fn replay(id: &str, v: &Value) -> i32 {
     let case = &v["case"];
     let f: fn(&Value) -> Option<Violation> = match id {
         "C06" => c06::replay_case,
+        "C18" => c18::replay_case,
+        "C16" => c16::replay_case,
         "C10" => c10::replay_case,
         "C19" => c19::replay_case,
         "C05" => c05::replay_case,
